@@ -42,10 +42,14 @@ func (e *vEnv) transient() *vTxn {
 func VerifH_C03_SeekTo() {
 	n, kind := vConfInt("n"), vConfInt("kind")
 	e := vNewEnv(kind, true)
-	e.vDAG(n, -1)
+	// conf del: the last commit deletes the document (-1: none)
+	del := vConfInt("del")
+	e.vDAG(n, del)
 	e.build()
 	c := vChoose("target", n)
 	tr := e.transient()
+	// the transient store of a time-travel read is an in-memory store
+	tr.data.memLocks = true
 	vf := &VersionedFetcher{txn: e.txn, store: tr, ctx: e.ctx, col: &vCol{def: e.def}, queuedCids: list.New()}
 	headBefore, dataBefore := e.txn.head.clone(), e.txn.data.clone()
 	err := vf.seekTo(e.commits[c].compCid)
@@ -64,6 +68,10 @@ func VerifH_C03_SeekTo() {
 	e.txn = tr
 	defer func() { e.txn = saved }()
 	vAssert(e.exists(), "document-exists-at-commit")
+	if del >= 0 && anc[del] {
+		vAssert(e.isDeleted(), "deleted-at-and-after-the-delete-commit")
+		return
+	}
 	vAssert(!e.isDeleted(), "not-deleted")
 	if kind == vFieldCounter {
 		sum := int64(0)
